@@ -157,7 +157,7 @@ pub fn gen_scfg(rng: &mut Rng) -> SCfg {
         raw: true,
         initial,
         allow_realloc,
-        max_nb_chunks: *rng.pick(&[0usize, 1, 2, 2, 3, 4, 6, 25]),
+        max_nb_chunks: if rng.chance(1, 25) { *rng.pick(&[usize::MAX, usize::MAX / 2, usize::MAX - 1]) } else { *rng.pick(&[0usize, 1, 2, 2, 3, 4, 6, 25]) },
         stable: rng.chance(2, 3),
         parallel: rng.chance(1, 4),
         codec: if rng.chance(1, 3) { None } else { Some(w.codec) },
